@@ -517,7 +517,7 @@ func (r *resolver) regularImports(ctx context.Context, ver resolve.VersionKey, i
 			continue
 		}
 		if d.Type.HasAttr(dep.Opt) {
-			optPackage[d.Name] = true
+			optPackage[dependencyName(d)] = true
 		}
 		if d.Type.IsRegular() {
 			regPackage[d.Name] = true
@@ -530,7 +530,7 @@ func (r *resolver) regularImports(ctx context.Context, ver resolve.VersionKey, i
 		if d.Type.HasAttr(dep.Dev) {
 			continue
 		}
-		if !d.Type.HasAttr(dep.Opt) && optPackage[d.Name] {
+		if !d.Type.HasAttr(dep.Opt) && optPackage[dependencyName(d)] {
 			continue
 		}
 		// If the requirement points to a derived package, the requirement
@@ -558,6 +558,17 @@ func (r *resolver) regularImports(ctx context.Context, ver resolve.VersionKey, i
 	}
 
 	return deps, nil
+}
+
+// dependencyName returns the name a dependency is declared under in
+// package.json: its alias if it has one, the package name otherwise. An
+// optional dependency overrides the regular dependency of the same name, so
+// two aliases of one package do not override each other.
+func dependencyName(d resolve.RequirementVersion) string {
+	if alias, ok := d.Type.GetAttr(dep.KnownAs); ok {
+		return alias
+	}
+	return d.Name
 }
 
 // concreteForLatest returns the concrete version pointed by "latest", if it
